@@ -44,7 +44,7 @@ def sine_case(draw, tier):
     return {"P": P, "order": order, "L": L, "N": N, "b0": b0,
             "fs": draw(st.sampled_from([1.0, 2.0, 1000.0, 0.3, 44100.0])),
             "A": draw(gens.loguniform(1e-3, 1e3)), "phi": draw(st.floats(0, 2 * math.pi)),
-            "by": draw(st.sampled_from(["L", "fres"])), "backend": draw(st.sampled_from(["numba", "numba", "numpy"])),
+            "by": draw(st.sampled_from(["L", "fres", "fres_jitter"])), "jit": draw(st.floats(-0.45, 0.45)), "backend": draw(st.sampled_from(["numba", "numba", "numpy"])),
             "olap": draw(st.sampled_from(["default", 0.0, 0.5, 0.75])),
             "win": draw(st.sampled_from(["kaiser", "np.kaiser", "sp.kaiser"]))}
 
@@ -59,6 +59,9 @@ def oracle_sine(case):
     an = SpectrumAnalyzer(x, fs, order=case["order"], psll=P, win=win, olap=case["olap"], backend=case["backend"])
     if case["by"] == "L":
         res = an.compute_single_bin(f0, L=L)
+    elif case["by"] == "fres_jitter":
+        # a requested resolution whose fs/fres is not an integer: the segment length is its rounding (still L)
+        res = an.compute_single_bin(f0, fres=fs / (L + case.get("jit", 0.3)))
     else:
         res = an.compute_single_bin(f0, fres=fs / L)
     viol = []
@@ -162,7 +165,7 @@ def oracle_scale(case):
         w = wref(L, cfg["psll"])
         Sx = tol.seg_scale(x, D, L, w, cfg["order"])
         Sy = tol.seg_scale(y, D, L, w, cfg["order"])
-        bx, by, bxy = tol.budget2(L, om, Sx), tol.budget2(L, om, Sy), tol.budget2(L, om, (Sx ** 0.5 * Sy ** 0.5))
+        bx, by, bxy = tol.budget2(L, om, Sx, len(D)), tol.budget2(L, om, Sy, len(D)), tol.budget2(L, om, (Sx ** 0.5 * Sy ** 0.5), len(D))
         XX0, YY0, XY0 = float(r0.XX[j]), float(r0.YY[j]), complex(r0.XY[j])
         XX1, YY1, XY1 = float(r1.XX[j]), float(r1.YY[j]), complex(r1.XY[j])
         checks = [("XX", XX1, cx * cx * XX0, 4 * cx * cx * bx), ("YY", YY1, cy * cy * YY0, 4 * cy * cy * by),
@@ -257,7 +260,7 @@ def oracle_relabel(case):
         S2 = float(np.sum(w * w))
         k0 = 2.0 / (fs * S2) if S2 > 0 else 0.0
         for name, S in (("Gxx", Sx), ("Gyy", Sy), ("Gxy", (Sx ** 0.5 * Sy ** 0.5))):
-            bud = 4 * tol.budget2(L, om, S) * k0
+            bud = 4 * tol.budget2(L, om, S, len(D)) * k0
             if not abs(complex(getattr(r1, name)[0]) * a - complex(getattr(r0, name)[0])) <= bud:
                 viol.append(V("relabel_density", q=name, a=a, got=complex(getattr(r1, name)[0]), base=complex(getattr(r0, name)[0])))
     else:
